@@ -5,6 +5,10 @@ import XalanModel.C04.EncodingProofs
 import XalanModel.C04.ReaderProofs
 import XalanModel.C04.EscapeProofs
 import XalanModel.C04.ForbiddenProofs
+import XalanModel.C04.CommentPIProofs
+import XalanModel.C04.CommentProofs
+import XalanModel.C04.WellFormedProofs
+import XalanModel.C04.TreeProofs
 /-!
 # C04 — XML output is well-formed and parses back to exactly the result tree
 
@@ -16,7 +20,7 @@ tables, entity strings, buffer sizes and the CDATA guard come from `Generated/C0
 namespace XalanModel.Props.C04
 open XalanModel.C04 XalanModel.Generated.C04
 
-def asciiEnc0 : Enc := ⟨.other, fun c => decide (c < 128)⟩
+def asciiEnc0 : Enc := ⟨.other, fun c => decide (c < 128), Fixes.asWritten⟩
 abbrev asciiEnc : Enc := asciiEnc0
 
 /-! ## buffers -/
@@ -116,25 +120,28 @@ theorem utf16_roundtrip (c : Nat) (rest : List Nat) (h : Spec.IsScalar c) :
 /-- **content_roundtrip.** For every XML version, every writer family (UTF-8, UTF-16, other encoding
 with *any* representability predicate that covers ASCII) and every sequence `cs` of characters that
 are XML `Char`s of that version — including `< & > " TAB CR LF`, `]]>`, supplementary characters and
-characters the encoding cannot represent —: `writeCharacters` on the UTF-16 form of `cs` raises no
+characters the encoding cannot represent — and whichever of the optional repairs (`Fixes`) are present
+(`hcons`: the non-character check is never present without the pair-consuming UTF-16 writer) —: `writeCharacters` on the UTF-16 form of `cs` raises no
 error, its code units decode (strict UTF-8 / UTF-16 decoder) to a character sequence `out`, and the
 XML reader (§2.4/§2.11/§4.1: predefined entities, decimal character references with the Legal
 Character constraint, line-end normalisation) reads `out` back as exactly `cs`. -/
-theorem content_roundtrip (ver : Ver) (e : Enc) (ha : AsciiOk e) (cs : List Nat)
+theorem content_roundtrip (ver : Ver) (e : Enc) (ha : AsciiOk e)
+    (hcons : e.fx.rejectNonChar = true → e.fx.utf16Pairs = true) (cs : List Nat)
     (hl : ∀ c ∈ cs, Spec.legalChar ver c = true) :
     ∃ items out, writeCharacters ver e (Spec.utf16Encode cs) = .ok items ∧
       Spec.decodeOut e.kind (unitsOf items) = some out ∧ Spec.readAll ver false out = some cs :=
   esc_roundtrip ver e ha false (pContent ver) (writeDefaultEscape ver e) (fun _ => by simp)
-    (fun c hle hs hlc => escape_content ver e ha c hle hs hlc) cs hl
+    (fun c hle hs hlc => escape_content ver e ha c hle hs hlc) hcons cs hl
 
 /-- **attr_roundtrip.** The same for `writeAttrString`, read back with attribute-value normalisation
 (§3.3.3): TAB, LF, CR and `"` survive because they are written as references. -/
-theorem attr_roundtrip (ver : Ver) (e : Enc) (ha : AsciiOk e) (cs : List Nat)
+theorem attr_roundtrip (ver : Ver) (e : Enc) (ha : AsciiOk e)
+    (hcons : e.fx.rejectNonChar = true → e.fx.utf16Pairs = true) (cs : List Nat)
     (hl : ∀ c ∈ cs, Spec.legalChar ver c = true) :
     ∃ items out, writeAttrString ver e (Spec.utf16Encode cs) = .ok items ∧
       Spec.decodeOut e.kind (unitsOf items) = some out ∧ Spec.readAll ver true out = some cs :=
   esc_roundtrip ver e ha true (pAttribute ver) (writeDefaultAttributeEscape ver e) (fun _ => by simp)
-    (fun c hle hs hlc => escape_attr ver e ha c hle hs hlc) cs hl
+    (fun c hle hs hlc => escape_attr ver e ha c hle hs hlc) hcons cs hl
 
 /-- the hypotheses are satisfiable by a non-trivial string under a restricted encoding, and the theorem's
 conclusion can be computed on it: `a<&>"\t\r\n]]>é€𝒳` under US-ASCII, XML 1.0 and 1.1 -/
@@ -162,29 +169,143 @@ theorem attr_forbidden_is_error (ver : Ver) (e : Enc) (s : List Nat)
 
 example : ∃ c ∈ [97, 0xD835, 0xDCB3, 8, 98], pForbidden .v10 c = true := ⟨8, by simp, by decide⟩
 
+/-- the optional repairs read from the working tree are consistent (the hypothesis `hcons` of the round-trip
+theorems holds for the code that is there), and are either all absent or all present up to the order in
+which `proposed/C04-r1…r4` are applied -/
+theorem generated_fixes_consistent :
+    (Fixes.generated.rejectNonChar = true → Fixes.generated.utf16Pairs = true) ∧
+    (Fixes.generated.rejectNonChar = true → Fixes.generated.cdataRef = true) ∧
+    (Fixes.generated.cdataRef = true → Fixes.generated.normLiteral = true) := by
+  decide
+
+/-- with the repairs (`Fixes.all`): U+FFFF, U+FFFE, an unpaired low or high surrogate are errors in every writer,
+an unencodable character in a comment is an error, CR in a CDATA section is written as `]]>&#13;<![CDATA[` -/
+theorem repairs_on_witnesses :
+    errOf (writeCharacters .v10 ⟨.utf8, fun _ => true, Fixes.all⟩ [0xFFFF]) = some .forbidden ∧
+    errOf (writeCharacters .v10 ⟨.utf8, fun _ => true, Fixes.all⟩ [97, 0xDC00]) = some .surrogate ∧
+    errOf (writeCharacters .v10 ⟨.utf16, fun _ => true, Fixes.all⟩ [0xD800]) = some .surrogate ∧
+    errOf (writeCharacters .v10 ⟨.utf16, fun _ => true, Fixes.all⟩ [0xD800, 97]) = some .surrogate ∧
+    okUnits (writeCharacters .v10 ⟨.utf16, fun _ => true, Fixes.all⟩ [0xD835, 0xDCB3]) = some [0xD835, 0xDCB3] ∧
+    errOf (writeNormalizedData .v10 ⟨.other, fun c => decide (c < 128), Fixes.all⟩ [0xE9]) = some .unrep ∧
+    okUnits (writeCDATA CDataCfg.fixed .v10 ⟨.utf8, fun _ => true, Fixes.all⟩ [97, 13, 98, 0] 3)
+      = some ([60, 33, 91, 67, 68, 65, 84, 65, 91] ++ [97] ++ [93, 93, 62] ++ [38, 35, 49, 51, 59]
+               ++ [60, 33, 91, 67, 68, 65, 84, 65, 91] ++ [98] ++ [93, 93, 62]) := by
+  decide
+
+/-- **content_output_implies_wellformed** (the repairs of `proposed/C04-r4`). With `throwIfNotACharacter` and the
+pair-consuming UTF-16 writer present, for every version and writer and *every* code-unit string: if
+`writeCharacters` / `writeAttrString` produce output at all, the string was well-formed UTF-16 (`wf16`: every
+high surrogate followed by a low one, no other low surrogate) and contained neither U+FFFE nor U+FFFF —
+i.e. an unpaired surrogate or a non-character anywhere always ends in an error, never in output.
+(`content_nonchar_counterexample` shows this fails for the code as written.) -/
+theorem content_output_implies_wellformed (ver : Ver) (e : Enc)
+    (hf : e.fx.rejectNonChar = true) (hp : e.fx.utf16Pairs = true) (s : List Nat) (items : List Item)
+    (h : writeCharacters ver e s = .ok items ∨ writeAttrString ver e s = .ok items) :
+    wf16 s = true ∧ ∀ c ∈ s, c < 0xFFFE := by
+  rcases h with h | h
+  · exact (escLoop_wf ver e hf hp _ _ s false [] items h).1 rfl
+  · exact (escLoop_wf ver e hf hp _ _ s false [] items h).1 rfl
+
+example : Fixes.all.rejectNonChar = true ∧ Fixes.all.utf16Pairs = true ∧
+    wf16 [97, 0xD835, 0xDCB3] = true ∧ wf16 [0xDCB3, 0xD835] = false ∧ wf16 [0xD835] = false := by decide
+
 /-- **content_nonchar_counterexample** (known finding `C04-noncharacter-not-rejected`,
 `C04-lone-surrogate-not-rejected`): the hypothesis `legalChar` of `content_roundtrip` cannot be dropped in
 favour of "the serializer reports an error": U+FFFF and an unpaired low surrogate are written, not rejected. -/
 theorem content_nonchar_counterexample :
-    okUnits (writeCharacters .v10 ⟨.utf8, fun _ => true⟩ [0xFFFF]) = some [0xEF, 0xBF, 0xBF] ∧
-    okUnits (writeCharacters .v10 ⟨.utf8, fun _ => true⟩ [0xDC00]) = some [0xED, 0xB0, 0x80] ∧
-    okUnits (writeCharacters .v10 ⟨.utf16, fun _ => true⟩ [0xD800]) = some [0xD800] ∧
+    okUnits (writeCharacters .v10 ⟨.utf8, fun _ => true, Fixes.asWritten⟩ [0xFFFF]) = some [0xEF, 0xBF, 0xBF] ∧
+    okUnits (writeCharacters .v10 ⟨.utf8, fun _ => true, Fixes.asWritten⟩ [0xDC00]) = some [0xED, 0xB0, 0x80] ∧
+    okUnits (writeCharacters .v10 ⟨.utf16, fun _ => true, Fixes.asWritten⟩ [0xD800]) = some [0xD800] ∧
     Spec.legalChar .v10 0xFFFF = false ∧ Spec.utf8Decode [0xED, 0xB0, 0x80] = none := by
   decide
 
+/-! ## comments and processing instructions -/
+
+/-- **comment_roundtrip** (also the data of a processing instruction). For every version, writer family and
+set of repairs: data made of characters that may stand literally in a comment / PI (`LiteralOk`: an XML `Char`,
+not CR, not one the table wants as a character reference, under XML 1.1 not NEL/LSEP, representable in the
+encoding) is written by `writeNormalizedData` without error, and the code units decode to exactly the data —
+a comment has no escapes, so what the parser reports is what was written (LF stays LF). -/
+theorem comment_roundtrip (ver : Ver) (e : Enc) (ha : AsciiOk e)
+    (hcons : e.fx.rejectNonChar = true → e.fx.utf16Pairs = true)
+    (data : List Nat) (hl : ∀ c ∈ data, LiteralOk ver e c) :
+    ∃ items, writeNormalizedData ver e (Spec.utf16Encode data) = .ok items ∧
+      Spec.decodeOut e.kind (unitsOf items) = some data := by
+  obtain ⟨items, h1, h2⟩ := normLoop_identity ver e ha hcons data hl
+  refine ⟨items, h1, ?_⟩
+  rw [h2]
+  exact decodeOut_encodeOut e.kind data (fun c hc => legal_scalar ver c (hl c hc).1)
+
+example : ∀ c ∈ [97, 10, 60, 38, 0xE9, 0x1D4B3], LiteralOk .v10 ⟨.utf8, fun _ => true, Fixes.asWritten⟩ c := by
+  intro c hc
+  simp at hc
+  rcases hc with h | h | h | h | h | h <;> subst h <;> exact ⟨by decide, by decide, by decide, by decide, rfl⟩
+
+/-- **comment_repair_wellformed.** `ElemComment::endElement` / `childrenToResultComment`: for every string the
+repaired data contains no `--`, does not end in `-`, contains the original as a subsequence (only spaces are
+added), and data that was already fine is left alone. -/
+theorem comment_repair_wellformed (s : List Nat) :
+    hasDD (repairComment s) = false ∧ endsHyphen (repairComment s) = false ∧
+    List.Sublist s (repairComment s) ∧
+    (hasDD s = false → endsHyphen s = false → repairComment s = s) :=
+  ⟨repairComment_noDD s, repairComment_noTrailingHyphen s, repairComment_sublist s, repairComment_id s⟩
+
+/-- **pi_repair_wellformed.** `ElemPI::endElement` / `childrenToResultPI`: the repaired data never contains `?>`. -/
+theorem pi_repair_wellformed (s : List Nat) : hasPIEnd (repairPI s) = false :=
+  repairPI_noEnd s.length s (Nat.le_refl _)
+
+example : repairComment [45, 45, 45, 97, 45] = [45, 32, 45, 32, 45, 97, 45, 32] ∧
+    repairPI [63, 62, 63, 63, 62] = [63, 32, 62, 63, 63, 32, 62] := by decide
+
+/-! ## documents -/
+
+/-- **document_structure** (`document_roundtrip`, structural part; `_partial` in the sense below). For every
+configuration and every result tree `t` (elements with attributes — namespace declarations are attributes at
+this level —, text, CDATA, comments, PIs, nested to any depth): feeding the SAX events of `t` to the
+event-driven serializer (element stack `m_elemStack`, the start tag's `>` deferred by `writeParentTagEnd`
+until the first child that writes something, `/>` when no child wrote anything) produces exactly the items of
+the recursive definition `serNode`: `<n attrs/>` if every child is empty character data, otherwise
+`<n attrs>` children `</n>` — including which error is raised when a leaf fails. With `content_roundtrip`,
+`attr_roundtrip`, `comment_roundtrip` for the leaves this is the whole document except (not proved): a reader
+for the tag syntax itself (names, `="…"` delimiters) and the CDATA leaf. -/
+theorem document_structure (c : Cfg) (t : XNode) :
+    serializeItems c (events t) =
+      (writeXMLHeader c).bind fun h => (serNode c t).bind fun a => pure (h ++ a) := by
+  have hn := node_ok c t [] []
+  simp only [List.append_nil] at hn
+  unfold serializeItems
+  simp only [bind, Except.bind]
+  cases writeXMLHeader c with
+  | error e => rfl
+  | ok h =>
+    simp only [hn, Except.bind]
+    cases serNode c t with
+    | error e => rfl
+    | ok a =>
+      cases hq : silent t <;>
+        simp [pteOf, hq, parentTagEnd, runEvents, Except.bind, pure, Except.pure]
+
+example : events (.elem [114] [([107], [34])] [.text [], .elem [97] [] [.text [60]], .comment [120]])
+    = [.startElement [114] [([107], [34])], .characters [0] 0, .startElement [97] [], .characters [60, 0] 1,
+       .endElement [97], .comment [120], .endElement [114]] := by
+  simp [events, eventsL]
+
 /-! ## generated tables and CDATA variant -/
 
-/-- The regenerated `s_specialChars` tables agree with the XML Recommendations on every entry:
-XML 1.0 — forbidden exactly the non-`Char` code points below 0x80; `< > &` and CR/LF special in
-content; additionally `"` and TAB in attributes.  XML 1.1 — nothing below 0xA0 forbidden outright,
-every `RestrictedChar` (and TAB, LF, CR, NEL) written as a character reference in content. -/
+/-- The regenerated `s_specialChars` tables meet what the Recommendations require, entry by entry:
+XML 1.0 — forbidden exactly the non-`Char` code points below 0x80; `< > &`, CR and LF special in content;
+additionally `"` and TAB in attributes.  XML 1.1 — every `RestrictedChar` is special in content and attributes
+(written as a character reference), `< > &` and CR are special in content, `"`, TAB, LF, CR in attributes, and
+nothing that is a `Char` is forbidden.  (Stated so that it holds with and without `proposed/C04-r1`, which makes
+TAB/LF/CR ordinary under 1.1 and NUL forbidden.) -/
 theorem generated_tables_sound :
     (∀ c ∈ List.range 128, pForbidden .v10 c = !(c = 9 || c = 10 || c = 13 || decide (32 ≤ c))) ∧
     (∀ c ∈ List.range 128, pContent .v10 c = (pForbidden .v10 c || c = 10 || c = 13 || c = 60 || c = 62 || c = 38)) ∧
     (∀ c ∈ List.range 128, pAttribute .v10 c = (pContent .v10 c || c = 9 || c = 34)) ∧
-    (∀ c ∈ List.range 160, pForbidden .v11 c = false) ∧
-    (∀ c ∈ List.range 160, 1 ≤ c → pContent .v11 c = (decide (c < 32) || decide (127 ≤ c) || c = 60 || c = 62 || c = 38)) ∧
-    (∀ c ∈ List.range 160, 1 ≤ c → pAttribute .v11 c = (pContent .v11 c || c = 34)) := by
+    (∀ c ∈ List.range 160, 1 ≤ c → pForbidden .v11 c = false) ∧
+    (∀ c ∈ List.range 160, (Spec.restricted11 c = true ∨ c = 13 ∨ c = 60 ∨ c = 62 ∨ c = 38 ∨ c = 0x85) → pContent .v11 c = true) ∧
+    (∀ c ∈ List.range 160, (pContent .v11 c = true ∨ c = 34 ∨ c = 9 ∨ c = 10) → pAttribute .v11 c = true) ∧
+    (∀ c ∈ List.range 160, (32 ≤ c ∧ c < 127 ∧ c ≠ 60 ∧ c ≠ 62 ∧ c ≠ 38) → pContent .v11 c = false) := by
   decide +kernel
 
 /-- The CDATA logic read from the working tree is one of the two variants the theorems below are
@@ -198,7 +319,7 @@ theorem generated_cdata_is_known_variant :
 
 /-! ## CDATA: the code as written violates the property (DESIGN §6 items 17, 18) -/
 
-def utf8Enc : Enc := ⟨.utf8, fun _ => true⟩
+def utf8Enc : Enc := ⟨.utf8, fun _ => true, Fixes.asWritten⟩
 
 /-- `cdata("é")` under US-ASCII, code as written: `<![CDATA[]]>&#233;<![CDATA[` — a section is opened
 at the end and never closed (the document is not well-formed).  Replayed on the real code by the
